@@ -15,6 +15,10 @@ pub struct GenParams {
     pub p_contract: usize,
     pub p_misuse: usize,
     pub p_reconsider: usize,
+    /// share (in 24ths) of rename-heavy scenarios
+    pub rename_heavy_share: usize,
+    /// weights of the graph shapes: random dag, chain-like, layered, motif, forest, hub, ladder
+    pub shape_w: [usize; 7],
     /// weights Always, Output, Ephemeral
     pub kind_w: [usize; 3],
     pub p_multi: usize,
@@ -37,6 +41,8 @@ impl GenParams {
             p_contract: 0,
             p_misuse: 0,
             p_reconsider: 0,
+            rename_heavy_share: 3,
+            shape_w: [30, 18, 13, 14, 10, 7, 8],
             kind_w: [2, 4, 4],
             p_multi: 200,
             edge_density: 350,
@@ -54,6 +60,7 @@ pub fn params_for(prop: &str, thorough: bool) -> GenParams {
     match prop {
         "C01" => {
             p.profile = "C01";
+            p.rename_heavy_share = 6;
             p.max_rounds = 6;
         }
         "C02" => {
@@ -66,16 +73,19 @@ pub fn params_for(prop: &str, thorough: bool) -> GenParams {
         }
         "C04" => {
             p.profile = "C04";
+            p.rename_heavy_share = 6;
             p.p_fail = 150;
             p.p_abort = 80;
         }
         "C05" => {
             p.profile = "C05";
             p.p_abort = 30;
+            p.p_contract = 100;
             p.p_reconsider = 80;
         }
         "C06" => {
             p.profile = "C06";
+            p.shape_w = [26, 16, 12, 13, 10, 7, 16];
             p.p_reconsider = 150;
             p.p_fail = 450;
             p.p_abort = 150;
@@ -83,8 +93,10 @@ pub fn params_for(prop: &str, thorough: bool) -> GenParams {
         }
         "C07" => {
             p.profile = "C07";
+            p.rename_heavy_share = 6;
             p.p_fail = 700;
             p.p_abort = 0;
+            p.p_contract = 100;
         }
         "C08" => {
             p.profile = "C08";
@@ -114,6 +126,7 @@ pub fn params_for(prop: &str, thorough: bool) -> GenParams {
             p.profile = "C13";
             p.kind_w = [2, 3, 6];
             p.p_fail = 350;
+            p.p_contract = 100;
             p.p_abort = 40;
         }
         "C14" => {
@@ -124,6 +137,7 @@ pub fn params_for(prop: &str, thorough: bool) -> GenParams {
         }
         "C15" => {
             p.profile = "C15";
+            p.rename_heavy_share = 6;
             p.force_semantic_noise = true;
             p.kind_w = [2, 3, 5];
             p.absent_bias = true;
@@ -140,10 +154,12 @@ pub fn params_for(prop: &str, thorough: bool) -> GenParams {
         "C17" => {
             p.profile = "C17";
             p.p_fail = 350;
+            p.p_contract = 200;
             p.p_reconsider = 80;
         }
         "C18" => {
             p.profile = "C18";
+            p.rename_heavy_share = 6;
             p.absent_bias = true;
             p.p_multi = 450;
             p.edits_max = 4;
@@ -267,13 +283,93 @@ pub fn generate(seed: u64, gp: &GenParams) -> Scenario {
     // shape: 0 = random dag, 1 = chain-like (deep, Ephemeral-heavy), 2 = layered
     let shape = {
         let mut rs = root.fork("shape");
-        match rs.below(20) {
-            0..=9 => 0,
-            10..=13 => 1,
-            14..=16 => 2,
-            _ => 3,
+        let sh = rs.weighted(&gp.shape_w);
+        if sh == 5 && !gp.allow_semantic {
+            0
+        } else {
+            sh
         }
     };
+    // ---- mode (swarm): one scenario in eight is *rename-heavy*: production naming (input names =
+    // consumed outputs), mostly multi-output jobs, and streaks of renames in consecutive rounds
+    let rename_heavy = gp.allow_semantic && {
+        let mut rm = root.fork("mode");
+        rm.chance(gp.rename_heavy_share, 24) || shape == 5
+    };
+    let cfg = if rename_heavy { Config { names: Names::Parts, ..cfg } } else { cfg };
+    // hub (shape 5): a multi-output job M (Output or Ephemeral) with 2..3 consumers that each use ONE
+    // of its files and have a private second upstream; M gains and loses outputs between evaluations
+    // while single consumers are kept from running by a failure of their private upstream
+    let mut hub_kinds: Vec<Kind> = Vec::new();
+    let mut hub_edges: Vec<(usize, usize, Vec<u8>)> = Vec::new(); // (down, up, consumed)
+    let mut hub_initial: Vec<u8> = Vec::new();
+    if shape == 5 {
+        let mut rh = root.fork("hub");
+        hub_kinds.push(Kind::Always); // S
+        hub_kinds.push(if rh.chance(1, 2) { Kind::Output } else { Kind::Ephemeral }); // M
+        if rh.chance(1, 2) {
+            hub_edges.push((1, 0, Vec::new()));
+        }
+        hub_initial = if rh.chance(1, 2) { vec![0, 1] } else { vec![rh.below(4) as u8] };
+        let k = 2 + rh.below(2);
+        for _ in 0..k {
+            let u = hub_kinds.len();
+            hub_kinds.push(if rh.chance(3, 5) { Kind::Always } else { Kind::Output });
+            let d = hub_kinds.len();
+            hub_kinds.push(Kind::Output);
+            hub_edges.push((d, 1, vec![*rh.pick(&hub_initial)]));
+            hub_edges.push((d, u, Vec::new()));
+        }
+        if rh.chance(1, 2) {
+            let d = hub_kinds.len();
+            hub_kinds.push(Kind::Output);
+            hub_edges.push((d, 1, Vec::new()));
+        }
+    }
+
+    // forest (shape 4): S (Always, changes), R (root of the tree), a tree of Ephemerals (depth <= 3,
+    // fan-out 1..2), an Output consumer under every Ephemeral leaf and under some inner nodes; some
+    // consumers also depend on S, so that parts of the tree become required late
+    let mut forest_kinds: Vec<Kind> = Vec::new();
+    let mut forest_edges: Vec<(usize, usize)> = Vec::new(); // (down, up)
+    if shape == 4 {
+        let mut rf = root.fork("forest");
+        forest_kinds.push(Kind::Always); // S
+        forest_kinds.push(if rf.chance(1, 2) { Kind::Always } else { Kind::Output }); // R
+        let mut level: Vec<usize> = vec![2];
+        forest_kinds.push(Kind::Ephemeral);
+        forest_edges.push((2, 1));
+        let mut ephs: Vec<usize> = vec![2];
+        let mut leaves: Vec<usize> = Vec::new();
+        for _depth in 0..2 {
+            let mut next = Vec::new();
+            for e in level.iter() {
+                let kids = if ephs.len() >= 6 { 0 } else { rf.weighted(&[2, 4, 3]) };
+                if kids == 0 {
+                    leaves.push(*e);
+                }
+                for _ in 0..kids {
+                    let c = forest_kinds.len();
+                    forest_kinds.push(Kind::Ephemeral);
+                    forest_edges.push((c, *e));
+                    ephs.push(c);
+                    next.push(c);
+                }
+            }
+            level = next;
+        }
+        leaves.extend(level.iter().cloned());
+        for e in ephs.iter() {
+            if leaves.contains(e) || rf.chance(1, 3) {
+                let c = forest_kinds.len();
+                forest_kinds.push(Kind::Output);
+                forest_edges.push((c, *e));
+                if rf.chance(1, 2) {
+                    forest_edges.push((c, 0));
+                }
+            }
+        }
+    }
     // motif (shape 3): S (Always), a chain of 1..3 Ephemerals E.., M (Output, consumes the last E),
     // Z (Output, consumes the last E and S), then random jobs hanging below M / Z: the shared
     // Ephemeral becomes required late (when S changes) after M was already skipped
@@ -289,9 +385,73 @@ pub fn generate(seed: u64, gp: &GenParams) -> Scenario {
             gp.max_jobs
         }
     };
+    // ladder (shape 6): an Always root X, a chain C1..Ck of Outputs below it, short side branches off the
+    // chain, and 1..3 Ephemerals that each feed TWO jobs at different depths (the deeper one usually the
+    // end of the chain): a failure travelling down the chain meets validated, still undecided
+    // Ephemerals from several sides in the same wave
+    let mut ladder_kinds: Vec<Kind> = Vec::new();
+    let mut ladder_edges: Vec<(usize, usize)> = Vec::new(); // (down, up)
+    if shape == 6 {
+        let mut rl = root.fork("ladder");
+        ladder_kinds.push(Kind::Always); // X
+        let n_eph = 1 + rl.below(3);
+        for _ in 0..n_eph {
+            ladder_kinds.push(Kind::Ephemeral);
+        }
+        let k = 3 + rl.below(3);
+        let mut level_nodes: Vec<Vec<usize>> = Vec::new(); // per depth (1-based chain depth)
+        let mut prev = 0usize;
+        let mut chain: Vec<usize> = Vec::new();
+        for depth in 0..k {
+            let c = ladder_kinds.len();
+            ladder_kinds.push(if depth + 1 < k && rl.chance(1, 6) { Kind::Ephemeral } else { Kind::Output });
+            ladder_edges.push((c, prev));
+            chain.push(c);
+            level_nodes.push(vec![c]);
+            prev = c;
+        }
+        // side branches: A below chain node, maybe A' below A
+        for depth in 0..k.saturating_sub(1) {
+            if rl.chance(1, 2) {
+                let a = ladder_kinds.len();
+                ladder_kinds.push(Kind::Output);
+                ladder_edges.push((a, chain[depth]));
+                if depth + 1 < level_nodes.len() {
+                    level_nodes[depth + 1].push(a);
+                }
+                if rl.chance(1, 2) {
+                    let a2 = ladder_kinds.len();
+                    ladder_kinds.push(if rl.chance(1, 4) { Kind::Always } else { Kind::Output });
+                    ladder_edges.push((a2, a));
+                    if depth + 2 < level_nodes.len() {
+                        level_nodes[depth + 2].push(a2);
+                    }
+                }
+            }
+        }
+        let last = *chain.last().unwrap();
+        for e in 1..=n_eph {
+            // upper consumer: depth 1..k-2; lower consumer: mostly the end of the chain
+            let du = rl.below(k.saturating_sub(2).max(1));
+            let upper = *rl.pick(&level_nodes[du]);
+            let lower = if rl.chance(3, 4) {
+                last
+            } else {
+                let dl = du + 1 + rl.below(k - du - 1);
+                *rl.pick(&level_nodes[dl.min(k - 1)])
+            };
+            ladder_edges.push((upper, e));
+            if lower != upper {
+                ladder_edges.push((lower, e));
+            }
+        }
+    }
     let n_defs = match shape {
         0 => 1 + r.below(max_jobs),
         3 => motif_core + r.below(max_jobs.saturating_sub(motif_core - 1).max(1)),
+        4 => forest_kinds.len() + r.below(3),
+        5 => hub_kinds.len() + r.below(3),
+        6 => ladder_kinds.len() + r.below(2),
         _ => 3 + r.below(max_jobs.saturating_sub(2).max(1)),
     };
     let layer_w = 2 + r.below(2);
@@ -327,12 +487,31 @@ pub fn generate(seed: u64, gp: &GenParams) -> Scenario {
                     [2, 4, 3]
                 }
             }
+            6 => match ladder_kinds.get(i) {
+                Some(Kind::Always) => [1, 0, 0],
+                Some(Kind::Output) => [0, 1, 0],
+                Some(Kind::Ephemeral) => [0, 0, 1],
+                None => [2, 4, 3],
+            },
+            5 => match hub_kinds.get(i) {
+                Some(Kind::Always) => [1, 0, 0],
+                Some(Kind::Output) => [0, 1, 0],
+                Some(Kind::Ephemeral) => [0, 0, 1],
+                None => [2, 4, 3],
+            },
+            4 => match forest_kinds.get(i) {
+                Some(Kind::Always) => [1, 0, 0],
+                Some(Kind::Output) => [0, 1, 0],
+                Some(Kind::Ephemeral) => [0, 0, 1],
+                None => [2, 4, 3],
+            },
             _ => gp.kind_w,
         };
         let kind = [Kind::Always, Kind::Output, Kind::Ephemeral][r.weighted(&kind_w)];
-        let multi = kind != Kind::Always && r.chance(gp.p_multi, 1000);
+        let hub_m = shape == 5 && i == 1;
+        let multi = hub_m || (kind != Kind::Always && !(shape == 5 && i < hub_kinds.len()) && r.chance(if rename_heavy { 750 } else { gp.p_multi }, 1000));
         let universe: Vec<String> = if multi {
-            let k = 2 + r.below(2);
+            let k = if hub_m { 4 } else if rename_heavy { 3 + r.below(2) } else { 2 + r.below(2) };
             (0..k).map(|p| format!("j{:02}{}", i, letter(p))).collect()
         } else {
             vec![format!("j{:02}", i)]
@@ -357,7 +536,22 @@ pub fn generate(seed: u64, gp: &GenParams) -> Scenario {
                     edits.push(Edit::AddJob { def: d });
                 }
                 if defs[d].universe.len() > 1 {
-                    let parts = draw_parts(&mut r, defs[d].universe.len());
+                    let parts = if shape == 5 && d == 1 {
+                        hub_initial.clone()
+                    } else if rename_heavy {
+                        // start small, so that there is room to grow
+                        let u = defs[d].universe.len();
+                        let a = r.below(u) as u8;
+                        let b = r.below(u) as u8;
+                        let mut v = vec![a];
+                        if b != a && r.chance(1, 2) {
+                            v.push(b);
+                        }
+                        v.sort();
+                        v
+                    } else {
+                        draw_parts(&mut r, defs[d].universe.len())
+                    };
                     edits.push(Edit::SetParts { def: d, parts });
                 }
             }
@@ -412,10 +606,45 @@ pub fn generate(seed: u64, gp: &GenParams) -> Scenario {
                                 dens / 5
                             }
                         }
+                        6 => {
+                            if ladder_edges.contains(&(down, up)) {
+                                1000
+                            } else if down >= ladder_kinds.len() {
+                                dens
+                            } else {
+                                0
+                            }
+                        }
+                        5 => {
+                            if hub_edges.iter().any(|(d, u, _)| *d == down && *u == up) {
+                                1000
+                            } else if down >= hub_kinds.len() {
+                                dens
+                            } else {
+                                0
+                            }
+                        }
+                        4 => {
+                            if forest_edges.contains(&(down, up)) {
+                                1000
+                            } else if down >= forest_kinds.len() {
+                                dens
+                            } else {
+                                0
+                            }
+                        }
                         _ => dens,
                     };
                     if r.chance(p, 1000) {
-                        edits.push(Edit::AddEdge { down, up, consumed: draw_consumed(&mut r, &cfg, defs[up].universe.len()) });
+                        let consumed = if let Some((_, _, c)) = hub_edges.iter().find(|(d, u, _)| shape == 5 && *d == down && *u == up) {
+                            c.clone()
+                        } else if rename_heavy && defs[up].universe.len() > 1 && r.chance(3, 4) {
+                            // depends on one file of the upstream: the input list survives renames that keep it
+                            vec![r.below(defs[up].universe.len()) as u8]
+                        } else {
+                            draw_consumed(&mut r, &cfg, defs[up].universe.len())
+                        };
+                        edits.push(Edit::AddEdge { down, up, consumed });
                     }
                 }
             }
@@ -425,6 +654,33 @@ pub fn generate(seed: u64, gp: &GenParams) -> Scenario {
                 if let Some(e) = draw_edit(&mut r, gp, &cfg, &defs, &g) {
                     g.apply(&defs, &e);
                     edits.push(e);
+                }
+            }
+            if rename_heavy {
+                for d in 0..n_defs {
+                    if defs[d].universe.len() > 1 && r.chance(1, 3) {
+                        // mostly: gain one output, sometimes lose one, sometimes anything
+                        let u = defs[d].universe.len();
+                        let cur: Vec<u8> = g.parts.get(&d).cloned().unwrap_or_else(|| vec![0]);
+                        let missing: Vec<u8> = (0..u as u8).filter(|i| !cur.contains(i)).collect();
+                        let parts = match r.below(20) {
+                            0..=11 if !missing.is_empty() => {
+                                let mut v = cur.clone();
+                                v.push(*r.pick(&missing));
+                                v.sort();
+                                v
+                            }
+                            12..=16 if cur.len() > 1 => {
+                                let mut v = cur.clone();
+                                v.remove(r.below(v.len()));
+                                v
+                            }
+                            _ => draw_parts(&mut r, u),
+                        };
+                        let e = Edit::SetParts { def: d, parts };
+                        g.apply(&defs, &e);
+                        edits.push(e);
+                    }
                 }
             }
         }
